@@ -32,6 +32,16 @@ class TrackRecordGetItem(Contract):
         return c.heap(True)[c.self.oid]["_last_record"]
 
 
+def _attach_concrete():
+    from .rebalance import GetItemConcrete
+    TrackRecordGetItem.concrete = GetItemConcrete()
+    TrackRecordGetItem.assumed = False
+    TrackRecordGetItem.abstraction = "image of the verified concrete contract under _last_record = _rebalancing[_time[-1]], _n = len(_time) (argued, A10)"
+
+
+_attach_concrete()
+
+
 # ============================================================================= rewards
 def mk_env_for_reward(I, with_record=True):
     b = mk_broker(I)
